@@ -42,7 +42,7 @@ type connector struct {
 	dsn        string
 	hooks      *SQLHooks
 	cachePages int
-	drv        *sqlite3.SQLiteDriver
+	drv        driver.Driver
 	cursors    *Cursors
 }
 
@@ -108,9 +108,25 @@ func OpenDB(dsn string, hooks *SQLHooks, cachePages int) *sql.DB {
 }
 
 // OpenDBCursors is OpenDB returning the cursor tracker of the handle as well.
+// DriverName, when set, is the database/sql driver name the daemon asked for:
+// connections are opened through that registered driver (so a connect hook the
+// daemon installs runs), not through a fresh sqlite3 driver value.
+var DriverName string
+
+func baseDriver() driver.Driver {
+	if DriverName != "" && DriverName != "sqlite3" {
+		if db, err := sql.Open(DriverName, ""); err == nil {
+			d := db.Driver()
+			db.Close()
+			return d
+		}
+	}
+	return &sqlite3.SQLiteDriver{}
+}
+
 func OpenDBCursors(dsn string, hooks *SQLHooks, cachePages int) (*sql.DB, *Cursors) {
 	cur := &Cursors{open: map[*rows]int64{}, wal: strings.Contains(dsn, "_journal=WAL") || strings.Contains(dsn, "_journal_mode=WAL")}
-	return sql.OpenDB(&connector{dsn: dsn, hooks: hooks, cachePages: cachePages, drv: &sqlite3.SQLiteDriver{}, cursors: cur}), cur
+	return sql.OpenDB(&connector{dsn: dsn, hooks: hooks, cachePages: cachePages, drv: baseDriver(), cursors: cur}), cur
 }
 
 // OpenDBVFS is OpenDB with the files of the database routed through the
